@@ -160,9 +160,28 @@ def make_check(cmd, table):
             written["full"] = n == len(data)
             written["bytes"] = bytes(c.datain)
 
+        fault = case.get("fault")
+        if fault:
+            inner = responder
+            boom = FAULTS[fault]("injected device failure")
+
+            def responder(dev, c, rec):  # noqa: F811
+                inner(dev, c, rec)
+                raise boom
+
         with lib("attach"):
             s, dev = devs.attach(table, blocksize=a.get("blocksize", 512) if isinstance(a, dict) else 512,
                                  responder=responder, variant=case.get("devvariant", 0))
+        if fault:
+            # the command was handed over once; the failure reaches the caller and nothing is sent again
+            try:
+                call(cmd, s, a)
+                raised = None
+            except Exception as e:  # noqa
+                raised = e
+            expect(len(dev.calls) == 1, "mismatch:execute_count_after_device_failure", n=len(dev.calls), fault=fault)
+            expect(raised is not None, "mismatch:device_failure_swallowed", fault=fault)
+            return True, ("device_fault", "resp_fault")
         try:
             with lib("facade " + cmd.facade):
                 c = call(cmd, s, a)
@@ -275,8 +294,16 @@ def check_documented(cmd, table):
     return check
 
 
+FAULTS = {"TypeError": TypeError, "OSError": OSError, "ValueError": ValueError, "RuntimeError": RuntimeError,
+          "KeyError": KeyError, "AttributeError": AttributeError, "IndexError": IndexError}
+
+
 def with_variant(strategy):
-    return st.tuples(strategy, st.integers(0, 2)).map(lambda t: dict(t[0], devvariant=t[1]))
+    # one case in eight: the device fails (raises) after it has taken the command
+    fault = st.one_of(st.none(), st.none(), st.none(), st.none(), st.none(), st.none(), st.none(),
+                      st.sampled_from(sorted(FAULTS)))
+    return st.tuples(strategy, st.integers(0, 2), fault).map(
+        lambda t: dict(t[0], devvariant=t[1], **({"fault": t[2]} if t[2] else {})))
 
 
 def run(ctx):
